@@ -50,6 +50,18 @@ A3 = Array('A3', I, B)      # third assignment term
 AN = Array('AN', Name, B)   # the arbitrary assignment over variable *names*
 Q = Array('Q', I, B)        # quantified level set of family QE
 HL = Int('HL')              # level parameter of family HASLVL
+P2 = Function('P2', I, I)    # powers of two (uninterpreted; P2(0) = 1, P2(k+1) = 2 P2(k) where needed)
+MUL = Function('MUL', I, I, I)   # product of two non-constant terms in proof obligations (sound abstraction: only congruence is used)
+CONCRETE = False                  # set by the cross-check on real executions: products are real products there
+
+
+def mul(a, b):
+    import z3
+    if CONCRETE or z3.is_int_value(a) or z3.is_int_value(b):
+        return a * b
+    return MUL(a, b)
+
+
 RT = Int('RT')              # target node of family REACH (rt[x]: node RT is reachable from node x, reflexive)
 
 # node-indexed fields: name -> (domain, range)
